@@ -90,7 +90,7 @@ func main() {
 		seed, _ = strconv.Atoi(s)
 	}
 	f, ok := registry[id]
-	if !ok && id != "ALL" {
+	if !ok && id != "ALL" && id != "STALE" {
 		fmt.Printf("CHECK-BROKEN unknown property %s\n", id)
 		os.Exit(2)
 	}
@@ -120,6 +120,10 @@ func main() {
 		}
 		fmt.Printf("CHECK-BROKEN property=%s load failed: %v\n", id, err)
 		os.Exit(2)
+	}
+	if id == "STALE" {
+		staleDebug(P)
+		os.Exit(0)
 	}
 	if id == "ALL" {
 		// documentation aid (tools/seed_matrix.py): every check on one loaded program, one summary line per check;
@@ -238,7 +242,7 @@ func checkReviewedCounts(r *Result, id string) {
 	}
 	sort.Strings(rules)
 	// census rules enumerate hazards (failure origins, map ranges, debit sinks): fewer of them is not a loss
-	census := map[string]bool{"FAIL-DIV": true, "FAIL-ERR": true, "FAIL-INDEX": true, "FAIL-PANIC": true, "DET-API": true, "DET-MAPRANGE": true, "DET-SORT": true, "VOTEEXT-FAIL": true, "SIGNER-FRAME": true}
+	census := map[string]bool{"FAIL-DIV": true, "FAIL-ERR": true, "FAIL-INDEX": true, "FAIL-PANIC": true, "DET-API": true, "DET-MAPRANGE": true, "DET-SORT": true, "VOTEEXT-FAIL": true, "SIGNER-FRAME": true, "LOST-UPDATE": true}
 	for _, rule := range rules {
 		if census[rule] {
 			continue
